@@ -72,9 +72,16 @@ func filterDependencies(n *component_definition.Property, metas []*component_def
 
 	//filter primary for single type
 	if len(result) > 1 && n.Type.Kind() != reflect.Slice && n.Type.Kind() != reflect.Array {
-		var candidate = result[0]
+		//the holder itself is never injected (Property.Inject drops it), so it must not win the selection
+		candidates := fas.Filter(result, func(m *component_definition.Meta) bool {
+			return !n.Holder.Meta.IsSelf(m)
+		})
+		if len(candidates) == 0 {
+			candidates = result
+		}
+		var candidate = candidates[0]
 
-		for _, m := range result {
+		for _, m := range candidates {
 			//Primary interface first
 			if reflectx.IsTypeImplement(m.Type, primaryInterface) {
 				candidate = m
